@@ -71,6 +71,7 @@ def main(tier):
             items = [{"key": "d%d_%d" % (bi, k), "spec": {x: s[x] for x in s if x != "features"}} for k, s in enumerate(chunk)]
             if bi == 0:
                 items += [{"key": "c%d" % k, "corpus": k} for k in range(len(its))]
+                items += [{"key": "p%d" % k, "pdk_item": k} for k in range(4)]  # PDK-compiled designs (sample, Sky130, GF180, ASAP7)
             batches.append((items, chunk))
             for w in range(S):
                 order = list(range(len(items)))
@@ -103,7 +104,7 @@ def main(tier):
                 key = it["key"]
                 ref = runs[0][2].get(key)
                 feats = list(chunk[k].get("features", [])) if k < len(chunk) else ["corpus"]
-                case = {"spec": it["spec"]} if "spec" in it else {"corpus": its[it["corpus"]][0]}
+                case = {"spec": it["spec"]} if "spec" in it else {"pdk_item": it["pdk_item"]} if "pdk_item" in it else {"corpus": its[it["corpus"]][0]}
                 if ref and ref.get("proto", "").startswith(("EXC", "BUILD-EXC")):
                     res.reject(ref["proto"])
                 for w, hs, o in runs[1:]:
@@ -128,6 +129,8 @@ def replay(case):
     try:
         if "spec" in case:
             items = [{"key": "x", "spec": case["spec"]}]
+        elif "pdk_item" in case:
+            items = [{"key": "x", "pdk_item": case["pdk_item"]}]
         else:
             names = [nm for nm, _ in corpus.items("thorough")]
             items = [{"key": "x", "corpus": names.index(case["corpus"])}]
